@@ -11,7 +11,17 @@ Trace == ndJsonDeserialize("trace.ndjson")
 Sig(prop, kind, class, e) == [prop |-> prop, kind |-> kind, class |-> class, scn |-> e.scn, line |-> l]
 
 \* compare everything the specification models (grantVals is observed only)
-Cmp(s) == [f \in DOMAIN s \ {"grantVals"} |-> s[f]]
+Cmp(s) == [f \in DOMAIN s \ {"grantVals", "grantExp"} |-> s[f]]
+
+\* spending from a grant never changes when it expires: for every grant that existed before and still
+\* exists after a transaction that contains no approve-family call, the expiration is the same
+RECURSIVE HasApprove(_)
+HasApproveOp(o) == (o.op = "pc" /\ o.m \in ApproveFamily) \/ (o.op = "call" /\ HasApprove(o.body))
+HasApprove(body) == \E i \in 1..Len(body) : HasApproveOp(body[i])
+ExpiryChanged(e) ==
+    {<<g, x, t>> \in UNION {UNION {{<<g2, x2, t2>> : t2 \in DOMAIN e.pre.grants[g2][x2]} : x2 \in DOMAIN e.pre.grants[g2]} : g2 \in DOMAIN e.pre.grants} :
+        /\ e.pre.grants[g][x][t] \notin {"none", "expired"} /\ e.post.grants[g][x][t] \notin {"none", "expired"}
+        /\ e.pre.grantExp[g][x][t] # e.post.grantExp[g][x][t]}
 
 FieldOrder == <<"wd", "deleg", "ubd", "grants", "rewards", "commission", "supply", "bank", "mods", "storage", "nonce">>
 FirstField(diff) == LET idx == {i \in 1..Len(FieldOrder) : FieldOrder[i] \in diff} IN
@@ -35,6 +45,7 @@ Judge(e) ==
         \* C04: authorization of successful calls; exact grant accounting
         \cup {Sig("C04", b.k, b.m \o "|" \o cls, e) : b \in r.bad}
         \cup (IF ~rev /\ "grants" \in diff THEN {Sig("C04", "grant-accounting", cls, e)} ELSE {})
+        \cup (IF ~HasApproveOp(e.top) /\ ExpiryChanged(e) # {} THEN {Sig("C04", "grant-expiration-changed-by-spend", cls, e)} ELSE {})
         \* anything else the precompile did differently from the native meaning
         \cup (IF ~rev /\ diff \cap (CosmosFields \cup {"storage", "nonce"}) # {} THEN {Sig("C16", "effect-differs-from-native", cls, e)} ELSE {})
 
